@@ -40,12 +40,46 @@ def mutants(rng, raw, quick):
             m = bytearray(raw); m[7:10] = v.to_bytes(3, "big"); out.append(("count", bytes(m)))
     return out
 
+def set_field(raw, off, w, val):
+    """bits [off, off+w) of the byte string (bit 0 = most significant bit of byte 0) := val"""
+    total = len(raw) * 8
+    x = int.from_bytes(raw, "big")
+    shift = total - off - w
+    if shift < 0:
+        return raw
+    mask = ((1 << w) - 1) << shift
+    x = (x & ~mask) | ((val & ((1 << w) - 1)) << shift)
+    return x.to_bytes(len(raw), "big")
+
+def field_mutants(rng, raw, fields, quick):
+    """whole metadata fields (from the spec decoder's field map) set to extreme or neighbouring values"""
+    out = []
+    total = len(raw) * 8
+    x = int.from_bytes(raw, "big")
+    for (name, off, w) in fields:
+        if off + w > total or w == 0:
+            continue
+        cur = (x >> (total - off - w)) & ((1 << w) - 1)
+        vals = {(1 << w) - 1, 0, cur + 1, cur - 1, cur ^ (1 << (w - 1)), (1 << w) - 2, 1}
+        vals = sorted(v & ((1 << w) - 1) for v in vals)
+        vals = [v for v in dict.fromkeys(vals) if v != cur]
+        if quick and not (name.endswith("gcd") or name.endswith("jumpstart") or name.endswith("nprefs")):
+            vals = [v for v in vals if rng.chance(1, 3)] or vals[:1]
+        short = name.split(".")[-1].rstrip("0123456789")
+        kind = "count" if short == "n" else "field:" + short
+        for v in vals:
+            out.append((kind, set_field(raw, off, w, v)))
+    return out
+
 def run(ctx):
-    ctx.explanation = ("partial: theorems cover the arithmetic/indexing facts of the operational model (offset <= range, value <= upper < 2^W, k <= W, metadata bounds, reps <= batch, saturating skip, reader stays inside the data, complete trees never fail but for lack of data) in every reachable state on arbitrary bytes; NOT covered by theorems: BitReader/BitWords word-level shifts and indexing, the fast path's guaranteed_safe_num_blocks bound, allocation failure (2^max_depth validation table) - these are exercised by the mutation fuzz only")
+    ctx.explanation = ("partial: theorems cover the arithmetic/indexing facts of the operational model (offset <= range, value <= upper < 2^W, k <= W, metadata bounds, reps <= batch, saturating skip, reader stays inside the data, complete trees never fail but for lack of data) in every reachable state on arbitrary bytes, the word-level reader (layer B), the literal Huffman table lookup (HT) and - C03n - NumDecompressor's dirty batch including the unchecked fast path: no out-of-bounds word index and no usize underflow for any complete tree, buffer and state (numDec_no_panic, fast_guard_sound); NOT covered by theorems: unsigned overflow of lower + offset*gcd in the value reconstruction, the metadata parser's own statements, allocation failure (2^max_depth validation table) - these are exercised by the mutation fuzz (byte-level and field-aware) only")
     rng = ctx.rng
     ctx.rule = ("mutation fuzz on the implementation (overflow checks + debug assertions on, catch_unwind per call, wall-clock and "
                 "memory caps per batch, dead batches bisected to the single input): bit flips (all of the first bytes, sampled "
-                "beyond), byte substitutions, splices, deletions, duplications, truncations, body-size and count field attacks of "
+                "beyond), byte substitutions, splices, deletions, duplications, truncations, body-size and count field attacks, and "
+                "FIELD-AWARE forgeries (the spec decoder's field map of each file: every metadata field - n, body size, moments, "
+                "prefix count, common/own GCD flags and fields, counts, bounds, code lengths, codes, jumpstarts - set to all ones, "
+                "zero, +-1, top bit flipped) of "
                 "valid files of every dtype/flag combination, plus random bytes behind a valid header; every decode entry point "
                 "and mixed call sequences (whole file, chunk API with skipping, iterator, iterator+skip, incremental writes with "
                 "free_compressed_memory, mixed). Decisive: never a panic, never a hang/timeout, never an abort. A sample is also "
@@ -53,9 +87,18 @@ def run(ctx):
                 "non-trivial = mutant whose decoding gets past the header")
     files = D.make_files(ctx, 30 if ctx.quick else 150, small=True) + D.make_files(ctx, 8 if ctx.quick else 50)
     lines, info = [], []
-    for f in files:
+    # field map of every file from the spec decoder (model driver): whole fields are then forged
+    fmaps = C.driver(["fields %s %s" % (f["dt"], f["hex"]) for f in files]) if ctx.model_ok else ["" for _ in files]
+    for f, fm in zip(files, fmaps):
         raw = bytes.fromhex(f["hex"])
         ms = mutants(rng, raw, ctx.quick)
+        if fm.startswith("ok "):
+            fields = [(t.split(":")[0], int(t.split(":")[1]), int(t.split(":")[2])) for t in fm[3:].split(" ") if t.count(":") == 2]
+            if ctx.quick and len(fields) > 60:
+                head = [x for x in fields if x[0].count(".") == 1 or ".p0." in x[0] or ".p1." in x[0]]
+                rest = [x for x in fields if x not in head]
+                fields = head + [rest[rng.below(len(rest))] for _ in range(30)] if rest else head
+            ms += field_mutants(rng, raw, fields, ctx.quick)
         # the unmutated file through every entry point as well
         for name, mk in ENTRY:
             lines.append("dops %s %d %s" % (f["dt"], rng.choice([1, 30, 31, 100000]), mk(raw.hex(), rng)))
@@ -94,5 +137,5 @@ def run(ctx):
         sample = [i for i in range(len(lines)) if rng.chance(1, 3 if ctx.quick else 2) and ans[i] not in ("died", "timeout") and "panic" not in ans[i]]
         # keep the model's work bounded: skip mutants for which the implementation produced millions of numbers
         # (a forged 24-bit count makes the model build lists of millions of numbers: implementation-only cases)
-        sample = [i for i in sample if info[i][1] != "count" and not any(int(x) > 300000 for x in __import__("re").findall(r"n=(\d+)", ans[i]))]
+        sample = [i for i in sample if info[i][1] not in ("count", "field:nprefs") and not any(int(x) > 300000 for x in __import__("re").findall(r"n=(\d+)", ans[i]))]
         D.compare_dops(ctx, lines, ans, "dops(hostile)", sample=sample, timeout=240)
